@@ -180,6 +180,9 @@ def run(run):
     rng = run.rng
     rounds = 2500 if run.tier == 'quick' else 40000
     for it in range(rounds):
+        if not run.time_left():
+            run.notes.append('stopped at the deadline after %d rounds' % it)
+            break
         n, m = rng.randint(1, 4), rng.randint(1, 4)
         _, _, rows = gen.random_table(rng, n, m, rng.choice((.2, .5, .8)))
         objs = ['o%d' % i for i in range(n)]
